@@ -1,7 +1,7 @@
 (* Proofs/C02_proofs.v — authorization codes: single use, bound to client and redirect_uri, expiring;
    OIDC replay revokes what was minted from the code. *)
 From Coq Require Import Lia ZArith List Bool.
-From Verif Require Import Lib.Base Lib.PyStr Model.Session Proofs.Session_proofs.
+From Verif Require Import Lib.Base Lib.PyStr Model.Session Proofs.Session_proofs Proofs.C05a_proofs.
 Import ListNotations.
 Open Scope Z_scope.
 
@@ -48,10 +48,10 @@ Lemma redeem_facts cf c s o s1 x :
     tok_active (now s) t = true /\ grant_active (now s) g = true /\ sc = g_scope g /\
     exists d, 1 <= d /\ bump1 c s s1 d.
 Proof.
-  unfold is_redeem. destruct o as [| | |idx kw| | | | | | | | |]; try discriminate.
+  unfold is_redeem. destruct o as [| | |idx kw| | | | | | | | | |]; try discriminate.
   destruct (nth_error (parsed s) idx) as [[e|cl c' redir|cl tok sc0]|] eqn:Ep; try discriminate.
   intros Hs H. apply andb_true_iff in H as [Hc Hx]. apply Nat.eqb_eq in Hc. subst c'.
-  destruct x as [| | | | |a r i sc| | |]; try discriminate.
+  destruct x as [| | | | |a r i sc| | | |]; try discriminate.
   cbn [step] in Hs. unfold do_process in Hs. rewrite Ep in Hs.
   apply code_process_success in Hs as (g&t&rd&Hf&Hcl&Hr&Hrd&Hact&_&Hga&Hsc&_&Hb). subst redir.
   exists idx, kw, cl, rd, g, t, sc, a, r, i. repeat split; auto.
@@ -94,10 +94,77 @@ Qed.
 Lemma authorize_fresh cf s u cl sc s1 c scope :
   step cf s (Authorize u cl sc) = (s1, OAuthz c scope) -> fresh_code c s1.
 Proof.
-  cbn [step]. unfold do_authorize.
+  cbn [step]. unfold do_authorize, do_authorize_at.
   match goal with |- context [mint ?a ?b ?c0 ?d ?e ?f ?g ?h] => destruct (mint a b c0 d e f g h) as [[s2 id]| |] eqn:Hm end;
     intros H; inversion H; subst; clear H.
   apply mint_new in Hm as (tn&Ht&_&Hc&_&Hu&_&Hm&_). exists tn. repeat split; auto. lia.
+Qed.
+
+(* ---- the redirect_uri a code is bound to ---- *)
+(* the redirect_uri of the authorization request that the grant holding the code was made (or kept) for *)
+Definition code_redirect (s : st) (c : nat) : option pystr :=
+  match find_tok c s with Some (g, _) => Some (g_redirect g) | None => None end.
+
+Lemma find_tok_of s k t g : tget k s = Some t -> nth_error (grants s) (t_grant t) = Some g -> find_tok k s = Some (g, t).
+Proof. unfold tget, find_tok. intros -> ->. reflexivity. Qed.
+
+(* no operation - a further authorization with or without session cookie, a redemption, a revocation, ... - changes it *)
+Lemma code_redirect_step cf s o c r : code_redirect s c = Some r -> code_redirect (fst (step cf s o)) c = Some r.
+Proof.
+  unfold code_redirect. destruct (find_tok c s) as [[g t]|] eqn:Hf; [|discriminate]. intros H; inversion H; subst; clear H.
+  apply find_tok_tget in Hf as (Ht&Hg).
+  destruct (step_ext cf s o c t Ht) as (t'&Ht'&L). destruct (step_gextw cf s o _ g Hg) as (g'&Hg'&Lg).
+  destruct L as (L1&_). destruct Lg as (_&_&_&G4&_).
+  rewrite (find_tok_of _ _ t' g'); [now rewrite G4|exact Ht'|now rewrite L1].
+Qed.
+Lemma code_redirect_run cf ops : forall s c r, code_redirect s c = Some r -> code_redirect (fst (run cf s ops)) c = Some r.
+Proof.
+  induction ops as [|o rest IH]; intros s c r H; cbn [run]; auto.
+  pose proof (code_redirect_step cf s o c r H) as H1. destruct (step cf s o) as [s1 x]. cbn [fst] in H1.
+  specialize (IH s1 c r H1). destruct (run cf s1 rest) as [s2 xs]. exact IH.
+Qed.
+
+(* what the authorization endpoint hands out: a fresh code, bound to the redirect_uri of THIS request *)
+Lemma authorize_at_code cf s u cl sc rd v s1 c scope :
+  do_authorize_at cf s u cl sc rd v = (s1, OAuthz c scope) -> fresh_code c s1 /\ code_redirect s1 c = Some rd.
+Proof.
+  unfold do_authorize_at.
+  match goal with |- context [mint ?a ?b ?c0 ?d ?e ?f ?g ?h] => destruct (mint a b c0 d e f g h) as [[s2 id]| |] eqn:Hm end;
+    intros H; inversion H; subst; clear H.
+  pose proof Hm as Hm'. apply mint_ok in Hm' as (_&_&Hgr&_).
+  apply mint_new in Hm as (tn&Ht&Hg&Hc&_&Hu&_&Hm&_). split.
+  - exists tn. repeat split; auto. lia.
+  - unfold code_redirect.
+    erewrite find_tok_of; [|exact Ht|rewrite Hgr, Hg; cbn [grants]; rewrite nth_error_app2 by lia; rewrite Nat.sub_diag; reflexivity].
+    reflexivity.
+Qed.
+Lemma authorize_cookie_code cf s prev u cl sc rd fresh s1 c scope :
+  do_authorize_cookie cf s prev u cl sc rd fresh = (s1, OAuthz c scope) -> fresh_code c s1 /\ code_redirect s1 c = Some rd.
+Proof.
+  unfold do_authorize_cookie. destruct (nth_error (grants s) prev) as [g|] eqn:Eg; [|apply authorize_at_code].
+  destruct (g_removed g || negb (str_eqb (g_client g) cl)); [apply authorize_at_code|].
+  destruct (negb (grant_active (now s) g)); [discriminate|].
+  destruct (negb (now s <? g_valid_until g)); [discriminate|].
+  destruct (same_request g sc rd fresh) eqn:Es; [|apply authorize_at_code].
+  match goal with |- context [mint ?a ?b ?c0 ?d ?e ?f ?g ?h] => destruct (mint a b c0 d e f g h) as [[s2 id]| |] eqn:Hm end;
+    intros H; inversion H; subst; clear H.
+  pose proof Hm as Hm'. apply mint_ok in Hm' as (_&_&Hgr&_).
+  apply mint_new in Hm as (tn&Ht&Hg&Hc&_&Hu&_&Hm&_). split.
+  - exists tn. repeat split; auto. lia.
+  - apply same_request_eq in Es as [_ Hrd]. unfold code_redirect.
+    rewrite (find_tok_of _ _ tn (regrant cf (now s) sc g) Ht); [cbn; now rewrite Hrd|].
+    rewrite Hgr, Hg. unfold upd_grant; cbn [grants]. now rewrite nth_upd_same, Eg.
+Qed.
+(* an authorization response that carries a code: from a request without or with session cookie *)
+Definition issues (o : op) (rd : pystr) : Prop :=
+  (exists u cl sc, o = Authorize u cl sc /\ rd = redirect_of cl) \/
+  (exists prev u cl sc fresh, o = AuthorizeCookie prev u cl sc rd fresh).
+Lemma issue_code cf s o rd s1 c scope :
+  issues o rd -> step cf s o = (s1, OAuthz c scope) -> fresh_code c s1 /\ code_redirect s1 c = Some rd.
+Proof.
+  intros [(u&cl&sc&->&->)|(prev&u&cl&sc&fresh&->)]; cbn [step].
+  - apply authorize_at_code.
+  - apply authorize_cookie_code.
 Qed.
 
 (* ---- the property ---- *)
@@ -109,6 +176,27 @@ Theorem single_use cf pre u cl sc s1 c scope post :
   step cf (fst (run cf init pre)) (Authorize u cl sc) = (s1, OAuthz c scope) ->
   (redeems c cf s1 post <= 1)%nat.
 Proof. intros H. apply fresh_redeems. eapply authorize_fresh; eauto. Qed.
+
+(* ... the same for a code handed out on a request that came with a session cookie (whether the provider kept the
+   earlier grant or made a new one) *)
+Theorem single_use_issued cf pre o rd s1 c scope post :
+  issues o rd -> step cf (fst (run cf init pre)) o = (s1, OAuthz c scope) -> (redeems c cf s1 post <= 1)%nat.
+Proof. intros Hi H. apply fresh_redeems. eapply issue_code; eauto. Qed.
+
+(* REDIRECT BINDING IS FIXED AT ISSUE: the code of an authorization response is redeemable with the redirect_uri of the
+   request that produced it and with no other, whatever happens in between - in particular further authorization
+   requests of the same browser session (same or other registered redirect_uri, same or other scope, cookie or not) *)
+Theorem redirect_bound_at_issue cf pre o rd s1 c scope post o' s3 x :
+  issues o rd -> step cf (fst (run cf init pre)) o = (s1, OAuthz c scope) ->
+  step cf (fst (run cf s1 post)) o' = (s3, x) -> is_redeem c (fst (run cf s1 post)) o' x = true ->
+  exists idx kw cl, o' = Process idx kw /\ nth_error (parsed (fst (run cf s1 post))) idx = Some (PCode cl c (Some rd)).
+Proof.
+  intros Hi H Hs Hr. destruct (issue_code _ _ _ _ _ _ _ Hi H) as (_&Hc).
+  pose proof (code_redirect_run cf post s1 c rd Hc) as Hc2.
+  destruct (redeem_facts _ _ _ _ _ _ Hs Hr) as (idx&kw&cl&rd'&g&t&sc&a&r&i&Ho&Hp&_&Hf&_&Hrd&_).
+  exists idx, kw, cl. split; auto. unfold code_redirect in Hc2. rewrite Hf in Hc2. inversion Hc2; subst rd.
+  apply str_eqb_eq in Hrd. now subst rd'.
+Qed.
 
 (* Bound: an exchange that yields tokens was made by the client the code was issued to, with the
    redirect_uri of the authorization request, while the code was unexpired, unrevoked and unused
